@@ -9,6 +9,7 @@ import (
 	"sort"
 	"strconv"
 	"strings"
+	"time"
 
 	v1 "k8s.io/api/core/v1"
 	metav1 "k8s.io/apimachinery/pkg/apis/meta/v1"
@@ -23,7 +24,7 @@ type Policy struct {
 	Events  []int64
 	Action  int64
 	Exit    *int64
-	Timeout bool
+	Timeout int64 // 0: none; 1: a Timeout of duration 0 (acts at once); 2: a real Timeout (DelayD): a delayed action
 }
 
 type Task struct {
@@ -81,7 +82,7 @@ type Req struct {
 }
 
 type Op struct {
-	Code int64 // 1 req 2 podphase 3 poddeleting 4 podgone 5 pgphase 6 syncjob 7 syncpods 8 syncpg 9 setspec 10 restart 11 replacejob 12 jobdeleting 13 stalejob
+	Code int64 // 1 req 2 podphase 3 poddeleting 4 podgone 5 pgphase 6 syncjob 7 syncpods 8 syncpg 9 setspec 10 restart 11 replacejob 12 jobdeleting 13 stalejob 14 fire (the oldest armed delayed action expires)
 	Req  Req
 	T, I int64
 	Ph   int64
@@ -147,7 +148,7 @@ func (w *W) Policy(p Policy) {
 	w.Z(p.Events...)
 	w.Z(p.Action)
 	w.Opt(p.Exit)
-	w.B(p.Timeout)
+	w.Z(p.Timeout)
 }
 func (r *R) Policy() Policy {
 	var p Policy
@@ -157,7 +158,7 @@ func (r *R) Policy() Policy {
 	}
 	p.Action = r.Z()
 	p.Exit = r.Opt()
-	p.Timeout = r.B()
+	p.Timeout = r.Z()
 	return p
 }
 func (w *W) Policies(ps []Policy) {
@@ -330,7 +331,7 @@ func (r *R) Op() Op {
 		o.T, o.I = r.Z(), r.Z()
 	case 5:
 		o.Ph = r.Z()
-	case 6, 7, 8, 10, 12, 13:
+	case 6, 7, 8, 10, 12, 13, 14:
 	case 9, 11:
 		o.Spec = r.Spec()
 	default:
@@ -384,8 +385,11 @@ func goPolicies(ps []Policy) []batch.LifecyclePolicy {
 		for _, e := range p.Events {
 			lp.Events = append(lp.Events, EventNames[e])
 		}
-		if p.Timeout {
+		switch p.Timeout {
+		case 1:
 			lp.Timeout = &metav1.Duration{Duration: 0}
+		case 2:
+			lp.Timeout = &metav1.Duration{Duration: DelayD}
 		}
 		out = append(out, lp)
 	}
@@ -508,6 +512,7 @@ type Obs struct {
 	// write was refused in this step
 	PgFields      []int64
 	JobUID        string // uid of the job incarnation at this step
+	Fired         *Req   // for a fire step: the expired delayed action as an explicit-action request (nil: none was pending)
 	PgMetaOK      bool
 	PgWriteFailed bool
 }
@@ -653,6 +658,7 @@ func GoReq(ns string, q Req) apis.Request {
 func (e *Env) Step(ns string, o Op) Obs {
 	e.BeginStep()
 	failed := false
+	var fired *Req
 	fresh := e.PodsDelivered(ns) && e.JobKnown() && !e.JobViewDeleting()
 	jobFresh, pgFresh := e.JobViewFresh(ns), e.PgViewFresh(ns)
 	pgv := false
@@ -677,7 +683,9 @@ func (e *Env) Step(ns string, o Op) Obs {
 				e.FailPgUpdate = int(f.A)
 			}
 		}
+		before := e.delaySnapshot(ns)
 		failed = e.ProcessReq(GoReq(ns, o.Req))
+		e.noteArming(ns, before)
 	case 2:
 		if p := e.APIPod(ns, PodName(o.T, o.I)); p != nil {
 			p = p.DeepCopy()
@@ -715,8 +723,14 @@ func (e *Env) Step(ns string, o Op) Obs {
 		e.JobDeleting(ns)
 	case 13:
 		e.StaleJob(ns)
+	case 14:
+		fired = e.FireNext()
+	}
+	if FakeClock {
+		time.Sleep(time.Millisecond) // one tick per step: no two timers share a deadline
 	}
 	ob := e.observe(ns, failed)
+	ob.Fired = fired
 	ob.FreshBefore, ob.PgViewBefore, ob.JobFreshBefore, ob.PgFreshBefore = fresh, pgv, jobFresh, pgFresh
 	return ob
 }
@@ -756,4 +770,76 @@ func (e *Env) Run(h History) (ns string, obs []Obs) {
 		obs = append(obs, e.Step(ns, o))
 	}
 	return ns, obs
+}
+
+// ---------- delayed actions (policies with a real timeout) ----------
+
+// DelayD is the timeout of every delayed policy.  Under the fake clock nothing else lets that
+// much time pass, so a timer expires exactly when a fire step advances the clock to its deadline.
+const DelayD = time.Hour
+
+type armed struct {
+	at  time.Time
+	req Req // the delayed action as a request with an explicit action (for the laws)
+}
+
+func (e *Env) delaySnapshot(ns string) map[string]uintptr {
+	m := map[string]uintptr{}
+	for _, d := range e.Ctl.VerifDelayedActions(jobKey(ns)) {
+		m[d.PodName] = d.ID
+	}
+	return m
+}
+
+func actionCode(a string) int64 {
+	for i, n := range ActionNames {
+		if string(n) == a {
+			return int64(i)
+		}
+	}
+	return 9
+}
+
+// noteArming: AddDelayActionForJob stored a new entry (and started a timer) in this step
+func (e *Env) noteArming(ns string, before map[string]uintptr) {
+	for _, d := range e.Ctl.VerifDelayedActions(jobKey(ns)) {
+		if id, ok := before[d.PodName]; ok && id == d.ID {
+			continue
+		}
+		q := Req{UidMatch: 1}
+		a := actionCode(d.Action)
+		q.Action = &a
+		if d.TaskName != "" {
+			t := TaskID(d.TaskName)
+			q.Task = &t
+		}
+		if d.PodName != "" {
+			t, i := PodID(d.PodName)
+			q.Pod = &[2]int64{t, i}
+		}
+		if d.DelayNs != int64(DelayD) {
+			panic("a delayed action with an unexpected delay")
+		}
+		e.armedQ = append(e.armedQ, armed{at: time.Now(), req: q})
+	}
+}
+
+// FireNext lets the oldest armed timer expire: the fake clock jumps to its deadline and the
+// harness waits until the timer's goroutine (the controller's own) has finished.
+func (e *Env) FireNext() *Req {
+	if len(e.armedQ) == 0 {
+		return nil
+	}
+	a := e.armedQ[0]
+	e.armedQ = e.armedQ[1:]
+	if !FakeClock {
+		panic("delayed actions need the fake clock")
+	}
+	if d := time.Until(a.at.Add(DelayD)); d > 0 {
+		time.Sleep(d)
+	}
+	WaitIdle()
+	e.Ctl.VerifDrainRequests()
+	q := a.req
+	return &q
 }
